@@ -340,6 +340,99 @@ def legacy_module_high_byte(H, _):
     H.cover("reached")
 
 
+def _pattern_stream_cases(tier):
+    out = [("all_chunks", ("all", None)), ("without_PNME", ("noname", None)), ("unknown_chunk_inside_pattern", ("all", "pattern")),
+           ("unknown_chunk_inside_clone", ("all", "clone"))]
+    return out
+
+
+@contract("foreign_patterns_decode", ["C04"], cases=_pattern_stream_cases,
+          targets=["rv.readers.sunvox:SunVoxReader.process_PDTA", "rv.readers.sunvox:SunVoxReader.process_PPAR", "rv.readers.sunvox:SunVoxReader.process_PEND",
+                   "rv.readers.pattern:PatternReader.process_*", "rv.readers.pattern:PatternCloneReader.process_*"])
+def foreign_patterns_decode(H, case):
+    """Pattern slots from the reference encoder: [pattern 2x1, empty, clone of slot 0, pattern 1x1] with
+    every documented pattern / clone chunk holding a symbolic value of its documented width and
+    signedness (PXXX / PYYY are signed): each public field decodes to the value the encoding denotes,
+    slots keep their positions, an unknown chunk inside a slot changes nothing."""
+    from rv.pattern import PatternClone
+
+    variant, unknown_in = case
+    vals = {}
+
+    def pattern_chunks(pfx, lines, tracks, named):
+        out = []
+        cells = [[tuple(H.int(f"{pfx}c{l}_{t}.{f}", lo, hi) for f, (lo, hi) in (("note", (0, 255)), ("vel", (0, 129)), ("module", (0, 0xFFFF)), ("ctl", (0, 0xFFFF)), ("val", (0, 0xFFFF))))
+                  for t in range(tracks)] for l in range(lines)]
+        vals[pfx + "cells"] = cells
+        for cid, attr, kind, cond in F.PATTERN_CHUNKS:
+            if kind == "notes":
+                out.append((b"PDTA", rw.join([F.enc_note(*c) for row in cells for c in row])))
+            elif cid == "PNME":
+                if named:
+                    out.append((b"PNME", F.enc_cstring("foreign verse")))
+            elif cid == "PCHN":
+                out.append((b"PCHN", F.enc_u32(tracks)))
+            elif cid == "PLIN":
+                out.append((b"PLIN", F.enc_u32(lines)))
+            elif kind == "u32":
+                v = vals[pfx + attr] = H.int(pfx + attr, *K.U32)
+                out.append((cid.encode(), F.enc_u32(v)))
+            elif kind == "i32":
+                v = vals[pfx + attr] = H.int(pfx + attr, *K.I32)
+                out.append((cid.encode(), F.enc_i32(v)))
+            elif kind == "rgb":
+                v = vals[pfx + attr] = tuple(H.int(f"{pfx}{attr}{i}", 0, 255) for i in range(3))
+                out.append((cid.encode(), F.enc_rgb(v)))
+            elif kind == "bytes32":
+                v = vals[pfx + attr] = H.bytes(pfx + attr, 32)
+                out.append((cid.encode(), v))
+        return out
+
+    a = pattern_chunks("a.", 2, 1, variant != "noname")
+    if unknown_in == "pattern":
+        a.insert(3, (UNKNOWN_ID, b"\x01\x02\x03"))
+    clone = []
+    for cid, attr, kind, _ in F.CLONE_CHUNKS:
+        if cid == "PPAR":
+            clone.append((b"PPAR", F.enc_u32(0)))
+        elif kind == "u32":
+            v = vals["cl." + attr] = H.int("cl." + attr, *K.U32)
+            clone.append((cid.encode(), F.enc_u32(v)))
+        else:
+            v = vals["cl." + attr] = H.int("cl." + attr, *K.I32)
+            clone.append((cid.encode(), F.enc_i32(v)))
+    if unknown_in == "clone":
+        clone.insert(1, (UNKNOWN_ID, b"\x01\x02\x03"))
+    b = pattern_chunks("b.", 1, 1, False)
+    d0 = {"flags": 0x43, "name": "Output", "finetune": 0, "relnote": 0, "x": 512, "y": 512, "layer": 0, "scale": 256,
+          "vis": 0xC0101, "color": (255, 255, 255), "always": False, "channel": 0, "mic": 0, "mib": -1, "mip": -1}
+    chunks = ([(b"SVOX", b""), (b"VERS", F.enc_version((2, 1, 2, 1)))] + a + [(b"PEND", b"")] + [(b"PEND", b"")] + clone + [(b"PEND", b"")]
+              + b + [(b"PEND", b"")] + _module_chunks(d0, "Output", True, []))
+    p = rw.read_back(H, _stream(chunks))
+    H.check("four_slots_in_file_order", len(p.patterns) == 4 and type(p.patterns[0]) is Pattern and p.patterns[1] is None
+            and type(p.patterns[2]) is PatternClone and type(p.patterns[3]) is Pattern)
+    if len(p.patterns) != 4 or p.patterns[1] is not None or type(p.patterns[2]) is not PatternClone:
+        return
+    for pfx, pat, lines, tracks in (("a.", p.patterns[0], 2, 1), ("b.", p.patterns[3], 1, 1)):
+        H.check(f"{pfx}shape", pat.lines == lines and pat.tracks == tracks and len(pat.data) == lines and all(len(r) == tracks for r in pat.data))
+        for cid, attr, kind, cond in F.PATTERN_CHUNKS:
+            if attr is not None and pfx + attr in vals:
+                got = getattr(pat, attr)
+                H.check(f"{pfx}{cid}.decoded", H.eq(tuple(got) if kind == "rgb" else got, vals[pfx + attr]))
+        for l in range(lines):
+            for t in range(tracks):
+                n = pat.data[l][t]
+                H.check(f"{pfx}cell[{l}][{t}]", H.eq((n.note, n.vel, n.module, n.ctl, n.val), vals[pfx + "cells"][l][t]))
+    H.check("a.PNME", p.patterns[0].name == ("foreign verse" if variant != "noname" else None))
+    H.check("b.PNME.absent_leaves_none", p.patterns[3].name is None)
+    cl = p.patterns[2]
+    H.check("clone.PPAR", cl.source == 0)
+    for cid, attr, kind, _ in F.CLONE_CHUNKS:
+        if "cl." + attr in vals:
+            H.check(f"clone.{cid}.decoded", H.eq(getattr(cl, attr), vals["cl." + attr]))
+    H.cover("reached")
+
+
 @contract("unknown_ids_have_no_handler", ["C04"], targets=["rv.readers.*:process_<id> attribute tables"], kind="ground")
 def unknown_ids_have_no_handler(H, _):
     """Ground: the id used for 'unknown chunk' names no attribute of any reader class, and every
